@@ -1,5 +1,5 @@
 """Claims published in MANIFEST.json (kept here so the manifest can be regenerated and always validates)."""
-SOURCE_COMMITS = ['4c1e51521 fix: BCSR row_norm2 square root after block loop', 'd83cc83e0 fix: dunavant:7 centroid weight', '246ad8691 fix: dunavant:18 coordinate typo', 'fb60cf4da fix: empty CSR transpose shape', 'c4b87cbce fix: empty BCSR transpose shape']
+SOURCE_COMMITS = ['4c1e51521 fix: BCSR row_norm2 square root after block loop', 'd83cc83e0 fix: dunavant:7 centroid weight', '246ad8691 fix: dunavant:18 coordinate typo', 'fb60cf4da fix: empty CSR transpose shape', 'c4b87cbce fix: empty BCSR transpose shape', '0741eb9e8 fix: thread layers with fewer than two workers']
 NOTES = ('Contract-based deductive verification with CBMC 6.11: the functions named per property are cut mechanically from /repo on every run, '
          'brought to C by a fixed rewrite table (xc/extract.py), annotated with the contracts in contracts/<id>/*.spec and checked by '
          'goto-instrument --dfcc + cbmc. exit 0 = every obligation discharged; exit 1 = VIOLATION (failed obligation; counterexample replayed '
@@ -30,6 +30,9 @@ CHECKS = {
  'C14': dict(level='proof', technique='closed IEEE-754 evaluation by CBMC of the table-driven fill() functions cut from /repo (no symbolic input; finite, exhaustive), one named obligation per rule and point count',
    text='For dunavant:2..20, shunn-ham:2..6, lauffer-degree-2, hammer-stroud-degree-3 (dims 2,3) and the refine: prefix on all five shapes: the rule writes exactly its advertised number of points, weights sum to the reference volume and every monomial up to the nominal degree is integrated within 5e-13.',
    note='Tolerance 5e-13 absolute and the nominal degrees are part of the specification. Rule accessors rewritten to arrays. NOT covered: drivers computing points with sqrt/cos (Gauss-Legendre/Lobatto, Hammer-Stroud D2/D5: CBMC does not constant-fold libm), silvester, trapezoidal/barycentre, tensor-product composition, DynamicFactory name parsing.'),
+ 'C17': dict(level='model_checking', technique='CBMC bounded checking (unwinding assertions) of the thread-layer distribution method cut from DomainAssembler, std::vector members modelled as bounds-asserting arrays; native replay on the real DomainAssembler',
+   text='Work-distribution slice: for every requested worker count <= 5 (thorough 8), up to 12 (20) layers of arbitrary sizes, _build_thread_layers never indexes a vector out of range, ends with 0 workers (threading off) or >= 2 workers, and gives every worker at least two consecutive layers covering [0, num_layers) exactly - the sequential facts the fence protocol relies on.',
+   note='Bounded (never counted as proved). NOT covered (outside this technique): race freedom, deadlock freedom and result equality over thread interleavings (std::thread/condition_variable), fence reset between jobs, colour construction.'),
  'C13': dict(level='proof', technique=T_PROOF,
    text='Kernel-level slice only: unbounded proofs that Mirror gather/scatter kernels stay in bounds, write only their target range, add alpha*buf to each mirrored entry exactly once (distinct mirror indices) and leave non-mirrored entries unchanged.',
    note='Decides only the per-patch gather/scatter step. NOT covered (outside this technique): Gate/Muxer/Splitter, MPI communication, process-count and message-schedule quantifiers.'),
@@ -46,7 +49,6 @@ PLANNED = {
  'C08': 'SOR/SSOR sweep regions (DESIGN §5 C08)',
  'C09': 'multigrid cycle control (DESIGN §5 C09)',
  'C10': 'orientation codes and per-cell refinement tables (DESIGN §5 C10)',
- 'C17': 'thread-layer distribution (DESIGN §5 C17)',
  'C19': 'permutation / colouring / graph transpose (DESIGN §5 C19)',
  'C20': 'MemoryPool reference-count core (DESIGN §5 C20)',
 }
